@@ -170,10 +170,12 @@ def run(F, R, tier):
         "(an existential over the iteration, independent of map order); (R3) flattening of host-supplied lists into name-keyed maps must "
         "not silently overwrite duplicates (last-wins makes the decision depend on list order); (R4) disabled short-circuit before any "
         "privilege is consulted; (R5) every Option attribute of Identity/Privilege is tested against its paired claim, mismatch => false; "
-        "(R6) inserts into the flattened assignments are guarded by 'privilege defined' and 'identity defined'.")
+        "(R6) inserts into the flattened assignments are guarded by 'privilege defined' and 'identity defined'; (R8) the computed "
+        "privileges / assignments maps only grow - nothing is removed from them after it was computed.")
     for rid, txt in (("C02.R1", "case-folding symmetry of every URL comparison"), ("C02.R2", "order independence of is_allowed by shape"),
                      ("C02.R3", "no silent last-wins flattening of host-supplied lists"), ("C02.R4", "disabled short-circuit"),
-                     ("C02.R5", "attribute coverage and pairing"), ("C02.R6", "dangling names are skipped")):
+                     ("C02.R5", "attribute coverage and pairing"), ("C02.R6", "dangling names are skipped"),
+                     ("C02.R8", "the computed privileges / assignments maps only grow")):
         R.rule(rid, txt)
     R.not_decided += ["equivalence of the decision with the specification on every rule document (prefix semantics, query parsing)",
                       "determinism of everything outside the shapes above"]
@@ -436,6 +438,29 @@ def run(F, R, tier):
                     "the privilege's identity set is only created (%s), this assignment's identities are not added to an existing set: the "
                     "first role assignment that reaches a privilege wins and later ones are dropped, so the decision depends on the "
                     "order of roleAssignments" % q.base_name(w).rsplit("::", 1)[-1])
+
+        # the computed maps only grow: is_allowed distinguishes "a declared privilege matches the URL but nobody is assigned" (deny)
+        # from "no declared privilege matches" (defaultAccess) by walking EVERY declared privilege, and reads the assignments
+        # of each; an entry taken out of the privileges / assignments map after it was computed (retain / remove / clear /
+        # drain) changes the decision for the URLs of that privilege although the rule document still declares it
+        n_rm = 0
+        for bi, w, r, t in B.calls_named("HashMap::retain", "HashMap::remove", "HashMap::remove_entry", "HashMap::clear",
+                                         "HashMap::drain", "HashMap::extract_if"):
+            a0 = t["args"][0] if t["args"] else None
+            mty = str(B.locals[a0["p"]["l"]].get("ty", "")) if a0 is not None and a0.get("k") in ("copy", "move") else ""
+            if "HashMap<" not in mty:
+                continue
+            val = mty.split("HashMap<", 1)[1]
+            if not ("Privilege" in val or "HashSet<" in val):
+                continue        # identities that no assignment names are never consulted: removing those is not a decision change
+            n_rm += 1
+            R.fail("C02.R8", R.key("C02.R8", fa_["id"], "computed-map-shrinks:%s" % q.base_name(w).rsplit("::", 1)[-1]), q.where(B, bi),
+                   "%s on the computed %s map: a declared privilege (or its computed assignments) is dropped from the rule set, so a URL "
+                   "it matches falls through to defaultAccess instead of 'matched, nobody assigned => deny' (is_allowed relies on every "
+                   "declared privilege being present)" % (q.base_name(w).rsplit("::", 1)[-1], "privileges" if "Privilege" in val else "assignments"))
+        R.check(n_rm == 0, "C02.R8", R.key("C02.R8", fa_["id"], "computed-maps-only-grow"), "%s:%s" % (fa_["file"], fa_["line"]),
+                "no retain / remove / clear / drain on the computed privileges and assignments maps in from_authorization_item",
+                "%d removal call(s) on the computed privileges / assignments maps" % n_rm)
 
     # ------------------------------------------------------------------ R5
     ident = F.adts.get(KEYM + "Identity")
